@@ -175,7 +175,7 @@ REGISTRY = {
     ),
     "C16": dict(
         jobs=lambda tier, seed: __import__("vf.props.solvers", fromlist=["x"]).configs(tier),
-        job_of_config=lambda cfg: ("vf.props.solvers", cfg.get("_job", "c16_diagonal")),
+        job_of_config=lambda cfg: ("vf.props.secondq", "c16_2nd_quant") if cfg.get("_job") == "2nd_quant" else ("vf.props.solvers", cfg.get("_job", "c16_diagonal")),
         technique="the real solver callables are executed on symbolic right-hand sides (and symbolic energies in the sympy branch); z3 decides residual H0_i V - V H0_j - Y != 0 entrywise "
         "(V = 0 where energies coincide inside a block)",
         bounds={
@@ -216,6 +216,21 @@ REGISTRY = {
         assumptions=["occupation numbers of bosons are real n >= 0 (a rational identity valid for all integers is valid identically); states closer to a truncation edge than the word length are outside",
                      "sympy's own evaluation of products of Pauli / number operators when the word is built is trusted", "z3 `unsat` trusted, first query per job cross-checked by cvc5"],
         timeout_s={"quick": 400, "thorough": 2400},
+    ),
+    "C07": dict(
+        jobs=lambda tier, seed: __import__("vf.props.secondq", fromlist=["x"]).configs(tier),
+        job_of_config=_job_of("vf.props.secondq", "c07"),
+        technique="real block_diagonalize on second-quantised Hamiltonians (bosons, fermions, spins, ladder operators, operator masks, matrix-valued) with SYMBOLIC parameters; the returned operator series are denoted by "
+        "their action on a Fock state with symbolic boson occupations (binary occupations case-split) and z3 decides the operator identities U^dagger U = 1, U^dagger H U = H_tilde, U^dagger = adjoint(U), "
+        "H_tilde has only kept components, anti-Hermitian part of U only eliminated ones (=> uniqueness => equality with the matrix result); plus a literal comparison with numeric block_diagonalize of truncated matrices at a seeded parameter point",
+        bounds={
+            "quick": "16 model families (anharmonic x^3/x^4, displaced, Kerr+two-photon drive, two bosons, Rabi, detuned JC, 2-fermion hopping, 3-fermion hopping+pairing, interacting fermions, Holstein, ladder+spin, "
+            "two operator masks, 2x2 matrix-valued with 1 and 2 blocks) to order 2-3",
+            "thorough": "same families to order 3-4",
+        },
+        assumptions=["boson occupations are real n >= 0 and denominators (energy differences incl. n-dependent ones) are non-zero atoms = documented non-degeneracy precondition; Fock states closer to the vacuum than the operator degree are covered through polynomial factors of n",
+                     "symbolic powers in masks and non-rational functions of number operators are outside", "z3 `unsat` trusted; first query per job cross-checked by cvc5"],
+        timeout_s={"quick": 400, "thorough": 1800},
     ),
 }
 
